@@ -4,7 +4,7 @@ checks, undo the change.  Appends one JSON line per (seed, check) to work/seedlo
 import json, os, subprocess, sys, time
 seed, checks = sys.argv[1], sys.argv[2].split(",")
 tier = sys.argv[4] if len(sys.argv) > 4 and sys.argv[3] == "--tier" else "quick"
-V = "/verif"
+V = os.environ.get("VSNAP", "/verif")
 def sh(*a, **k): return subprocess.run(a, stdout=subprocess.PIPE, stderr=subprocess.STDOUT, text=True, **k)
 assert sh("git", "-C", "/repo", "status", "--porcelain", "--untracked-files=no").stdout.strip() == "", "/repo not clean"
 patch = os.path.join(seed, "patch.diff") if os.path.isdir(seed) else seed
@@ -19,8 +19,8 @@ try:
         rec = dict(seed=os.path.basename(seed.rstrip("/")), check=c, tier=tier, exit=p.returncode, violations=len(viol), first=(what[0][:300] if what else ""), wall=round(time.time()-t0))
         if p.returncode == 2: rec["tool_error"] = p.stdout[-600:]
         print(json.dumps(rec)); sys.stdout.flush()
-        os.makedirs(os.path.join(V, "work/seedlogs"), exist_ok=True)
-        open(os.path.join(V, "work/seedlogs/detect.jsonl"), "a").write(json.dumps(rec) + "\n")
+        os.makedirs("/verif/work/seedlogs", exist_ok=True)
+        open("/verif/work/seedlogs/detect.jsonl", "a").write(json.dumps(rec) + "\n")
 finally:
     sh("git", "-C", "/repo", "checkout", "--", ".")
     subprocess.run(["rm", "-rf", os.path.join(V, "replays")])
